@@ -47,21 +47,21 @@ type NodeCfg struct {
 }
 
 type Node struct {
-	cfg      NodeCfg
-	w        *World
-	name     string
-	raftAddr string
-	apiAddr  string
-	fs       *crashfs.FS
-	engine   *storage.Engine
-	srv      *grpc.Server
-	lis      *simnet.Listener
-	queue    *storage.IndexNotificationQueue
-	repl     *replication.Manager
-	conn     *grpc.ClientConn
-	up       bool
-	mnet     *memberlist.MockNetwork
-	gen      int
+	cfg       NodeCfg
+	w         *World
+	name      string
+	raftAddr  string
+	apiAddr   string
+	fs        *crashfs.FS
+	engine    *storage.Engine
+	srv       *grpc.Server
+	lis       *simnet.Listener
+	queue     *storage.IndexNotificationQueue
+	repl      *replication.Manager
+	conn      *grpc.ClientConn
+	up        bool
+	mnet      *memberlist.MockNetwork
+	gen       int
 	abandoned int // replication managers whose Close did not return in bounded time (see closeRepl)
 }
 
